@@ -63,6 +63,12 @@ class PointSub(collections.namedtuple('PointBase', 'x y')):
 
 
 PointSub.__qualname__ = 'PointSub'
+# field / attribute names that collide with parameter names used inside the package's own helper functions
+COLLIDING = ['fn', 'ctx', 'args', 'kwargs', 'value', 'type', 'doc', 'indent', 'self', 'cls', 'fndoc', 'argdocs', 'kwargdocs', 'hug_sole_arg', 'trailing_comment',
+             'left', 'right', 'docs', 'dangle', 'key', 'default', 'width', 'depth', 'object', 'stream', 'end', 'style']
+Collide1 = collections.namedtuple('Collide1', COLLIDING[:9])
+Collide2 = collections.namedtuple('Collide2', COLLIDING[9:18])
+Collide3 = collections.namedtuple('Collide3', COLLIDING[18:])
 Point0 = collections.namedtuple('Point0', '')
 Point1 = collections.namedtuple('Point1', 'x')
 Point3 = collections.namedtuple('Point3', 'x y z')
@@ -148,6 +154,13 @@ def gen_instances(rng, quick):
     for p in (Point0(), Point1(1), Point1([1, 2]), Point3(1, 'a', None), Point3(Point1(1), (1,), {'k': 'v'}), Point3('x' * 40, 'y' * 40, 'z' * 40)):
         yield 'namedtuple', p
     yield 'namedtuple', Renamed(1, 2, 3, 4)
+    for cls_ in (Collide1, Collide2, Collide3):
+        yield 'namedtuple', cls_(*range(len(cls_._fields)))
+        yield 'namedtuple', cls_(*[[i, 'x' * 12] for i in range(len(cls_._fields))])
+    for j in range(0, len(COLLIDING), 4):
+        yield 'SimpleNamespace', types.SimpleNamespace(**{k_: [1, k_] for k_ in COLLIDING[j:j + 4] if k_ != 'self'})
+    yield 'partial', functools.partial(dict, **{k_: 1 for k_ in COLLIDING[:8] if k_ != 'self'})
+    yield 'partial', functools.partial(dict, **{k_: 'v' for k_ in COLLIDING[8:] if k_ != 'self'})
     yield 'namedtuple', PointSub(1, [2, 3])
     yield 'namedtuple', PointSub(PointSub(1, 2), Renamed('a', 'b', 'c', 'd'))
     import fractions
